@@ -126,6 +126,33 @@ R.macro("d_plen", ["b", "p"], "ite(d_len(b, p) - d_hdr(b, p) > 0, d_len(b, p) - 
 R.macro("d_payload", ["b", "p"], "b[p + d_hdr(b, p):p + d_hdr(b, p) + d_plen(b, p)]")
 R.macro("d_end", ["b", "p"], "p + d_hdr(b, p) + (d_plen(b, p) + 3) // 4 * 4")
 
+R.macro("avp_at_layout", ["a", "b", "p"],
+        "a.code == d_code(b, p) and a._vendor_id == d_vendor(b, p) and a.payload == d_payload(b, p) and "
+        "a.flags == d_flags(b, p) - 128 * bit7(d_flags(b, p)) + ite(a._vendor_id != 0, 128, 0)")
+
+
+def _avp_at_term(ex, st, a, b, p):
+    from pyvc.models import _ufun
+    a = ex.unwrap(a)
+    f = [ex.read_field(st, a, n) for n in ("code", "_vendor_id", "flags", "payload")]
+    return _ufun(ex, "avp_at_wire", [INT, INT, INT, "(Seq Int)", "(Seq Int)", INT], "Bool",
+                 f[0].t, f[1].t, f[2].t, f[3].t, ex.unwrap(b).t, ex.num(p))
+
+
+@R.specfn("avp_at")
+def _avp_at(ex, st, a, b, p):
+    """AVP object `a` carries exactly the code, vendor id, flags (V normalised) and payload that the RFC 6733 layout
+    functions d_* read at offset p of buffer b.  Kept as an uninterpreted predicate of the four field values, the
+    buffer and the offset; its defining equation (avp_at_layout) is instantiated where it is established
+    (Avp.from_unpacker) - this keeps the layout arithmetic out of the loop and postcondition queries."""
+    return VBool(_avp_at_term(ex, st, a, b, p))
+
+
+@R.specfn("avp_at_def")
+def _avp_at_def(ex, st, a, b, p):
+    from pyvc.speceval import SpecEnv
+    body = ex.spec_bool(SpecEnv(st, {"a": a, "b": b, "p": p}), "avp_at_layout(a, b, p)")
+    return VBool(Eq(_avp_at_term(ex, st, a, b, p), body))
 R.contract("Avp.from_unpacker", params={"unpacker": "Unpacker"}, returns="Avp",
            requires=["upos(unpacker) >= 0"],
            ensures=[("code", "result.code == d_code(ubuf(unpacker), old(upos(unpacker)))"),
@@ -135,6 +162,7 @@ R.contract("Avp.from_unpacker", params={"unpacker": "Unpacker"}, returns="Avp",
                               "+ ite(result._vendor_id != 0, 128, 0)"),
                     ("payload", "result.payload == d_payload(ubuf(unpacker), old(upos(unpacker)))"),
                     ("position", "upos(unpacker) == d_end(ubuf(unpacker), old(upos(unpacker)))"),
+                    ("identical-to-the-wire", "avp_at(result, ubuf(unpacker), old(upos(unpacker)))"),
                     ("progress", "upos(unpacker) >= old(upos(unpacker)) + 8"),
                     ("in-buffer", "upos(unpacker) <= len(ubuf(unpacker))"),
                     ("type", "ite(dict_known(result.code, result._vendor_id), "
@@ -146,7 +174,8 @@ R.contract("Avp.from_unpacker", params={"unpacker": "Unpacker"}, returns="Avp",
                          "d_end(ubuf(unpacker), upos(unpacker)) > len(ubuf(unpacker)) or "
                          "upos(unpacker) + 8 > len(ubuf(unpacker)) or "
                          "upos(unpacker) + d_hdr(ubuf(unpacker), upos(unpacker)) > len(ubuf(unpacker))", "iff")],
-           modifies=["unpacker._Unpacker__pos"], allocates=True, props=["C01", "C04"])
+           hints=["avp_at_def(result, ubuf(unpacker), old(upos(unpacker)))"],
+           modifies=["unpacker._Unpacker__pos"], allocates=True, props=["C01", "C04", "C02"])
 
 R.contract("Avp.from_bytes", params={"avp_data": "bytes"}, returns="Avp",
            ensures=[("code", "result.code == d_code(avp_data, 0)"),
